@@ -32,8 +32,7 @@ ASSUMPTIONS = [
 MIN_NONTRIVIAL = {'quick': 8000, 'thorough': 200000}
 REQUIRED_MONITORS = ['boundary:custom_sort', 'boundary:sort_tracts',
                      'contract:custom_sort', 'illegal-key',
-                     'resort-after-element-edit',
-                     'illegal-key:legal-prefix']
+                     'resort-after-element-edit']
 
 KEYS = ['i', 't', 't.num', 't.ns', 't.sn', 'r', 'r.num', 'r.ew', 'r.we', 's',
         's.num', 'i.num']
@@ -192,17 +191,8 @@ def run_again_after_edit(case, ctx, pytrs, lst, d, kind, ks, keystr):
             f"{[now[i] for i in model]}", dedup='resort')
 
 
-# Keys that only BEGIN like a legal key: an unknown variable that starts with
-# i/t/r/s, a sub-method that does not exist, parts in the wrong order.
-PARTIAL = ['tx', 'sec', 'twp', 'rge', 'idx', 't.xyz', 'r.e', 't.nsx', 't.n',
-           's.numx', 't.rev.ns', 'r.rev.ew', 't.ns.num', 'i.x', 's.rev.x']
-
-
 def run_illegal(rng, ctx, pytrs):
-    partial = rng.random() < 0.4
-    key = rng.choice(PARTIAL if partial else ILLEGAL)
-    if partial and rng.random() < 0.3:
-        key = rng.choice(['t.ns,', 's,', 'i.rev,']) + key
+    key = rng.choice(ILLEGAL)
     if rng.random() < 0.3:
         key = key.upper()
     kind = rng.choice(['tract', 'trs'])
@@ -213,27 +203,18 @@ def run_illegal(rng, ctx, pytrs):
     ctx.hit('illegal-key')
     lst = (pytrs.TractList([pytrs.Tract('x', trs=s) for s in strs])
            if kind == 'tract' else pytrs.TRSList(strs))
-    if partial:
-        ctx.hit('illegal-key:legal-prefix')
-    with warnings.catch_warnings(record=True) as caught:
-        warnings.simplefilter('always')
-        try:
-            lst.custom_sort(key)
-        except ValueError:
-            return
-        except Exception as e:
-            ctx.violation('illegal-key-wrong-exception', case,
-                          f"custom_sort({key!r}) raised {type(e).__name__}: "
-                          f"{e}", dedup=key.lower())
-            return
-    warned = [str(w.message) for w in caught
-              if issubclass(w.category, SyntaxWarning)]
+    try:
+        lst.custom_sort(key)
+    except ValueError:
+        return
+    except Exception as e:
+        ctx.violation('illegal-key-wrong-exception', case,
+                      f"custom_sort({key!r}) raised {type(e).__name__}: {e}",
+                      dedup=key.lower())
+        return
     ctx.violation('illegal-key-accepted', case,
-                  f"custom_sort({key!r}) was accepted (no ValueError; "
-                  f"SyntaxWarning: {warned[:1]})",
-                  dedup=key.lower(), legal_prefix=partial,
-                  syntax_warning=bool(warned
-                                      and 'fully interpreted' in warned[0]))
+                  f"custom_sort({key!r}) was accepted (no ValueError)",
+                  dedup=key.lower())
 
 
 def _setup(ctx):
@@ -269,19 +250,6 @@ def run_shard(shard, ctx):
         run_case(case, ctx, rep, pytrs)
         if n % 10 == 0:
             run_illegal(rng, ctx, pytrs)
-
-
-def classify(v):
-    """'key-with-legal-prefix-accepted-with-warning': a key component that
-    merely begins like a legal one is applied as far as it was understood and
-    only a SyntaxWarning ("may not have been fully interpreted") is emitted.
-    Evidence demanded from the execution itself: the key is one of the
-    legal-prefix family AND that very warning was recorded; an illegal key
-    accepted silently, or one without a legal prefix, stays a violation."""
-    if v['kind'] == 'illegal-key-accepted' and v.get('legal_prefix') \
-            and v.get('syntax_warning'):
-        return 'key-with-legal-prefix-accepted-with-warning'
-    return None
 
 
 def replay(case, ctx):
